@@ -3,6 +3,10 @@ each behaviour's schedule becomes one scenario that the harness replays step by 
 import json, os, random, re, subprocess, time
 
 SPEC = "/verif/spec"
+SYS_SITES = ["C_Idle", "C_Poll", "C_PutCheck", "C_Send", "C_DelMark", "C_PouUpdate", "C_PouWeightOf", "T_UpdRemove", "T_UpdInsert",
+             "T_Put", "T_Del", "C_Get", "C_Access", "C_ShutFlag", "C_ShutPolicy", "C_ShutTicker", "C_ShutStore", "C_ShutClearPolicy",
+             "C_ShutClearTtl", "W_Recv", "W_Drain", "W_PutCheck", "A_Space", "A_Sample", "K_DelKw", "K_DelUsed", "K_AddKw",
+             "K_AddUsed", "W_StorePut", "K_Update", "W_DelStore", "S_Tick", "S_Sweep", "S_Done", "R_Recv", "R_Apply"]
 
 
 def replay_lines(out):
@@ -26,6 +30,13 @@ def export_schedules(gen, scen_path, workdir, seed):
     out = p.stdout
     open(f"{workdir}/tlc.out", "w").write(out[-200000:])
     hists = replay_lines(out)
+    scen_json = None
+    m = re.search(r'<<"SCENARIO", "(.*?)">>\s*$', out, re.M)
+    if m:
+        try:
+            scen_json = json.loads(m.group(1).replace('\\"', '"').replace('\\\\', '\\'))
+        except Exception:
+            scen_json = None
     info = {"cfg": gen["cfg"], "behaviours_exported": len(hists), "wall_s": round(time.time() - t, 1), "exhaustive": not gen.get("simulate")}
     if not hists:
         info["error"] = f"TLC exported no behaviour for {gen['cfg']} (rc={p.returncode}); see {workdir}/tlc.out"
@@ -43,9 +54,21 @@ def export_schedules(gen, scen_path, workdir, seed):
             if gen["kind"] == "ack":
                 sc = {"name": f"{gen['cfg']}-{i}", "status": gen["status"], "pollers": gen["pollers"], "steps": h, "seed": 0}
             else:
-                sc = dict(gen["scenario"])
-                sc["name"] = f"{gen['cfg']}-{i}"
-                sc["schedule"] = {"kind": "list", "steps": h, "then_drain": True}
+                if scen_json is None:
+                    info["error"] = f"TLC printed no SCENARIO for {gen['cfg']}"
+                    return info
+                c = scen_json["cfg"]
+                est = scen_json.get("est", {})
+                if isinstance(est, list):      # a TLA+ function over 1..n is printed as an array
+                    est = {str(i + 1): v for i, v in enumerate(est)}
+                sc = {"name": f"{gen['cfg']}-{i}",
+                      "cfg": {"max_weight": c["max"], "counters": 64, "capacity": 16, "shards": c["shards"], "qsize": c["qsize"], "pool": c["pool"],
+                              "buffer": c["buffer"], "hash": c["hash"], "clock0": c["clock0"], "wf_base": c["wf_base"], "wf_mod": c["wf_mod"],
+                              "wf_ttl": c["wf_ttl"], "default_weight_fn": False},
+                      "programs": scen_json["programs"],
+                      "yield_sites": gen.get("yield_sites", SYS_SITES),
+                      "freq": [[int(k), int(v)] for k, v in est.items() if int(v) > 0],
+                      "schedule": {"kind": "list", "steps": h, "then_drain": True}}
             f.write(json.dumps(sc) + "\n")
     info["replayed"] = len(hists)
     return info
